@@ -4,6 +4,7 @@ package enum
 
 import (
 	"fmt"
+	"sync"
 	"sync/atomic"
 
 	"verif/lib/ev"
@@ -14,6 +15,68 @@ type E struct {
 	Inputs     int64 // distinct input configurations enumerated ("states")
 	Calls      int64 // calls of the implementation compared with the model ("transitions")
 	Nontrivial int64 // inputs that reach the non-degenerate branch
+
+	mu      sync.Mutex
+	kept    []kept
+	KeptN   int64 // results kept and later re-examined
+	keepOff bool
+}
+
+type kept struct {
+	name   string
+	v      any
+	snap   string
+	replay any
+}
+
+// Keep remembers a value that the code under test returned (a slice, a map, a pointer) together
+// with its rendering at that moment. The value stays referenced while later calls are made and is
+// rendered again when it leaves a window of 48 later results (and at Finish): a result must not
+// change because of calls made after it was returned (a scratch buffer or cache shared between calls
+// shows here and nowhere else). Callers keep values they own; values the property defines as live
+// views (Array2D.Row, Trim results) are not kept across writes to their origin.
+func (e *E) Keep(name string, v any, replay any) {
+	if e.keepOff {
+		return
+	}
+	k := kept{name, v, fmt.Sprintf("%v", v), replay}
+	e.mu.Lock()
+	e.kept = append(e.kept, k)
+	var old *kept
+	if len(e.kept) > 48 {
+		o := e.kept[0]
+		old = &o
+		e.kept = e.kept[1:]
+	}
+	e.mu.Unlock()
+	atomic.AddInt64(&e.KeptN, 1)
+	if old != nil {
+		e.recheck(*old)
+	}
+}
+
+func (e *E) recheck(k kept) {
+	if now := fmt.Sprintf("%v", k.v); now != k.snap {
+		if len(now) > 300 {
+			now = now[:300] + "..."
+		}
+		snap := k.snap
+		if len(snap) > 300 {
+			snap = snap[:300] + "..."
+		}
+		e.Fail(k.name+"|result-changed-by-a-later-call", k.replay, "a value returned by %s was %s when it was returned and reads %s after later calls: results are not independent of each other", k.name, snap, now)
+	}
+}
+
+// Flush re-examines every kept result now.
+func (e *E) Flush() {
+	e.mu.Lock()
+	ks := e.kept
+	e.kept = nil
+	e.mu.Unlock()
+	for _, k := range ks {
+		e.recheck(k)
+	}
 }
 
 func (e *E) Input(nontrivial bool) {
@@ -40,6 +103,8 @@ func Catch(f func()) (panicked bool, msg string) {
 }
 
 func (e *E) Finish(rule string) {
+	e.Flush()
+	e.R.Set("results_kept_and_re_examined_after_later_calls", e.KeptN)
 	e.R.Set("states", e.Inputs)
 	e.R.Set("transitions", e.Calls)
 	e.R.Set("traces_validated_against_impl", e.Calls)
